@@ -429,7 +429,6 @@ def const_pred(sc, tree, ph, txt):
     if is_float and not finite:
         fails.append("a float that may be inf / nan is written as its bare repr (a name, not a literal)")
     if not parenthesised:
-        term = (z3.Function("py_str_obj", emit.Obj if hasattr(emit, "Obj") else z3.DeclareSort("Obj"), z3.StringSort()) if False else None)
         lit = [c for c in sc.pc if "PrefixOf" in str(c)]
         neg_excluded = any(str(c).replace("\n", " ").startswith("Not(PrefixOf(\"-\"") for c in lit)
         if not neg_excluded:
@@ -718,7 +717,8 @@ def commons(task, tier, seed):
 
 
 CONST_SAMPLES = [0, 3, -3, -1, 10 ** 30, -(10 ** 30), 0.5, -0.5, 2.0, -0.0, 1e100, -1e-7, True, False, None, "s", "-x", "it's", 'q"', "a\nb", "\u00e9",
-                 (1, -2), (-1,), [1, -2.5], [-3], {"k": -1}, (), [], {}, 1 + 2j, (-2 - 1j)]
+                 (1, -2), (-1,), [1, -2.5], [-3], {"k": -1}, (), [], {}, 1 + 2j, (-2 - 1j),
+                 float("inf"), float("-inf"), float("nan")]
 # Python contexts an expression hole is emitted into by the visitors above (read off the schemas): the operand is
 # substituted textually, so the text must stay ONE operand in the tightest of them
 HOLE_CONTEXTS = [("({} ** z)", lambda t: t.left), ("(z ** {})", lambda t: t.right), ("{}[z:]", lambda t: t.value), ("(-{})", lambda t: t.operand),
@@ -738,8 +738,7 @@ def const_atomic(task, tier, seed):
     """bounded stand-in for the compositionality assumption of the emission schemas: the text the real visit_Const writes
     for a constant is a single Python operand in every hole context, and evaluates to the constant"""
     t0 = time.time()
-    task.bound_text = (f"{len(CONST_SAMPLES)} sample constants (ints, floats incl. negative / -0.0, bools, None, strings, tuples, lists, dicts, complex; "
-                       f"non-finite floats are C08.const.roundtrip) x {len(HOLE_CONTEXTS)} hole contexts")
+    task.bound_text = (f"{len(CONST_SAMPLES)} sample constants (ints, floats incl. negative / -0.0, bools, None, strings, tuples, lists, dicts, complex, inf / -inf / nan) x {len(HOLE_CONTEXTS)} hole contexts")
     bad = []
     for v in CONST_SAMPLES:
         try:
@@ -977,6 +976,23 @@ def operator_tables(task, tier, seed):
     row("[~].lexer", LX.operators.get("~") == "tilde" and _lex_types("a ~ b")[1] == ("tilde", "~"), f"lexer.operators['~'] = {LX.operators.get('~')!r}")
     d = _same_on(lambda a, b: N.Concat([N.Const(a), N.Const(b)]).as_const(ectx), lambda a, b: str(a) + str(b), [(1, 2), ("a", 3), ("a", "b"), (None, 1.5)])
     row("[~].as_const", d is None, f"Concat([Const a, Const b]).as_const {d or 'is str(a) + str(b)'}")
+    # the folded `~` must be the value the compiled `~` computes: escaping join under autoescape, never folded while volatile
+    from markupsafe import Markup as _M
+
+    def fold_ae(a, b):
+        ec = N.EvalContext(jinja2.Environment(autoescape=True))
+        return N.Concat([N.MarkSafe(N.Const(a[1])) if isinstance(a, tuple) else N.Const(a), N.Const(b)]).as_const(ec)
+
+    d = _same_on(fold_ae, lambda a, b: RT.markup_join((_M(a[1]) if isinstance(a, tuple) else a, b)), [(("safe", "<b>"), "<"), ("<", ">"), (1, "&"), (("safe", ""), 2)])
+    row("[~].as_const.autoescape", d is None, f"Concat.as_const under autoescape {d or 'is runtime.markup_join of the operands'}")
+    vctx = N.EvalContext(jinja2.Environment())
+    vctx.volatile = True
+    try:
+        N.Concat([N.Const("a"), N.Const("b")]).as_const(vctx)
+        vol_ok = False
+    except N.Impossible:
+        vol_ok = True
+    row("[~].as_const.volatile", vol_ok, "Concat.as_const in a volatile context is Impossible (the join is chosen at run time)")
     d = _same_on(lambda a, b: RT.str_join((a, b)), lambda a, b: str(a) + str(b), [(1, 2), ("a", 3), ("<", ">")])
     row("[~].str_join", d is None, f"runtime.str_join {d or 'is the concatenation of str(operand)'}")
     from markupsafe import Markup, escape
@@ -1524,7 +1540,7 @@ META = {
         "an expression hole of an emission schema is filled with text that is ONE Python operand: holds by construction for every visitor "
         "that opens with a parenthesis / call (checked by the schemas), checked on sample constants for visit_Const "
         "(C02.emit.Const.operand, bounded; it was refuted for negative numbers before /repo commit 78bbe8f)",
-        "non-finite float constants (inf / nan written as bare names) are C08.const.roundtrip / C01.emit.wellformed.W5 (F9)",
+        "non-finite float constants nested inside folded containers are C08.const.roundtrip / has_safe_repr (F9); the bare ones are covered here",
     ],
     "findings": [
         "all repaired in /repo (known_findings.d/c02.json, list `fixed`): negative constant as left operand of ** (78bbe8f), keyword if / in / not "
